@@ -113,7 +113,7 @@ def finish(results, jobs, build, out, tier, seed, wall):
             out.violation("%s:%s:%s" % (c["kind"], ",".join(c["shape"]), c["info"][:80]), "%s on shape %s: %s" % (c["kind"], c["shape"], c["info"]), c)
     jobs = [j for j in jobs if j.get("kind") != "wrap"]
     ev = finish_tok(PROP, results, jobs, build, out, tier, seed, wall, Oracle(), CORPUS,
-                    {"items": "0..=%d" % nmax, "grammars": len(C06_GRAMMARS), "step_budget_per_path": 600000})
+                    {"argv_words": "0..=%d (up to twice as many items); e1: items 0..=%d" % (nmax, 1 if tier == "quick" else 2), "grammars": len(C06_GRAMMARS) + 1, "step_budget_per_path": 600000})
     from .framework import merge_counts
     ev["coverage"]["messages_at_render_cut"] = merge_counts(results, "messages")
     ev["coverage"]["message_obligations"] = sum(r.get("message_obligations", 0) for r in results)
